@@ -150,6 +150,13 @@ def src_io(ctx, corr, cfgs, stacks, cases, vg):
     ref = d[real[0]]
     okidx = [k for k, o in enumerate(ref) if o and not o.startswith(("CRASH", "bad-", "harness-", "un"))]
     ops2 = [(cases[k][0], "reload {s} " + ref[k]) for k in okidx] + [(cases[k][0], "redump {s} " + ref[k]) for k in okidx]
+    # every dump is also loaded by the stacks of the other precision / interpolation method that share its storage shape
+    # (the width-converting read path, which a same-type reload never takes)
+    for k in okidx:
+        a = cases[k][0]
+        for b in range(len(stacks)):
+            if b != a and impl.infos[a].strip == impl.infos[b].strip:
+                ops2.append((b, "reload {s} " + ref[k]))
     # a truncated and a bit-flipped copy of every dump: rejecting them (an exception) is defined behaviour, too
     rnd = random.Random(ctx.seed * 15 + 1)
     for k in okidx:
